@@ -8,13 +8,14 @@ import itertools
 import warnings
 from fractions import Fraction
 
-from common import (Stream, budget, enc_op, enc_term, canon_op_json, to_gq, from_gq, dyadic, rng_for)
+from common import (Stream, budget, enc_op, enc_term, canon_op_json, to_gq, from_gq, gq_key, dyadic, rng_for)
 
 TRUSTED = [
     'C06: scipy.sparse (kron, csc/coo conversion, nonzero ordering, matmul) is modelled as index arithmetic on entry '
     'lists; numpy.split/concatenate as list take/drop; both tied by the exact correspondence run',
     'C06: bosonic matrices contain sqrt(n): the Model returns amplitudes as sqrt(R) (R natural) and the comparison '
-    'uses tolerance 1e-9; expectation / variance / eigenspectrum are glue over numpy/scipy compared to 1e-9',
+    'uses tolerance 1e-9; expectation / variance on sparse matrices are compared exactly with the Model, eigenspectrum and '
+    'LinearOperator expectation values are glue over numpy/scipy compared to 1e-9',
     'C06: multiprocessing.Pool is replaced by a fake pool (every completion order); real pools only in thorough',
 ]
 ASSUMPTIONS = [
@@ -35,7 +36,10 @@ OPEN_STATEMENTS = [
     'truncated boson matrices: boson_term_sound_partial relates the Model column (amplitude sqrt(R)) of a word that '
     'does not hit the cut-off to the polynomial Spec up to diag(sqrt(n!)); the cut-off, the index arithmetic, the '
     'float sum over terms and the QuadOperator route are numeric correspondence only',
-    'expectation / variance / eigenspectrum: contract-only glue over scipy, numeric correspondence',
+    'expectation / variance: proved for the Model\'s sparse-matrix form (expectation_vec_sound, '
+    'expectation_density_sound, expectation_pure_consistent, variance_def, second_moment_hermitian_only) and tied '
+    'to the source by an exact correspondence run on the implementation\'s own matrices; LinearOperator '
+    'arguments and eigenspectrum / sparse_eigenspectrum (scipy eigensolvers) are numeric correspondence only',
     'OS-level behaviour of multiprocessing.Pool (fork, pickling, worker death) is not expressible',
 ]
 
@@ -823,6 +827,27 @@ def stream_numeric(ctx):
                 elif not abs(complex(got) - complex(want)) <= 1e-9 * max(1.0, abs(complex(want))):
                     st.violate(name + ' != psi^dagger M^k psi / Tr(rho M^k) of the matrix of the (non-Hermitian) operator',
                                scase, {'got': str(complex(got)), 'want': str(complex(want))})
+            if cls != 'boson':
+                # exact correspondence with the Model of expectation / variance (Model.C06Expect) on the
+                # implementation's own matrix: dyadic entries and states, every float operation is exact
+                Mc = M.tocoo()
+                ents = [[int(r_), int(c_), to_gq(complex(v_))] for r_, c_, v_ in zip(Mc.row, Mc.col, Mc.data)]
+                rr, cc = numpy.nonzero(rho_mixed)
+                rents = [[int(r_), int(c_), to_gq(complex(rho_mixed[r_, c_]))] for r_, c_ in zip(rr, cc)]
+                spm = scipy.sparse.csc_matrix(rho_mixed)
+                for label, req, fe, fv in (
+                        ('vector', {'state': [to_gq(complex(v)) for v in psi]},
+                         lambda: of.expectation(M, psi), lambda: of.variance(M, psi)),
+                        ('density matrix', {'rho': rents},
+                         lambda: of.expectation(M, spm), lambda: of.variance(M, spm))):
+                    ans = ctx.driver.one(dict(req, op='c06.expectation', dim=dim, entries=ents))
+                    for what, f in (('expectation', fe), ('variance', fv)):
+                        kind, got = safe(f)
+                        st.count('model-%s:%s' % (what, label))
+                        if kind == 'err':
+                            st.violate('%s(sparse, %s) raised' % (what, label), scase, got)
+                        elif gq_key(complex(got)) != from_gq(ans[what]):
+                            st.disagree('%s(sparse, %s)' % (what, label), scase, str(complex(got)), ans[what])
 
     # non-Hermitian operators: eigenspectrum must use the general eigenvalue routine, is_hermitian must say False.
     # Families with well-conditioned (distinct or exactly diagonal) spectra so that 1e-8 is decided with margin.
